@@ -200,7 +200,7 @@ func (c *Check) Run(sel []HarnessDef) int {
 				}
 				key := r.Kind + "|" + r.Label + "|" + r.Msg
 				shown[key]++
-				if shown[key] <= 2 {
+				if shown[key] <= 12 {
 					fmt.Fprintf(os.Stderr, "  %s label=%s msg=%s site=%s\n    stack=%s\n    model=%v\n    trace=%v\n", r.Kind, r.Label, r.Msg, r.Site, firstLines(r.Stack, 30), r.Model, r.Trace)
 				}
 			}
